@@ -237,9 +237,48 @@ def copy(x, *a, **kw):
     return _np.copy(x, *a, **kw)
 
 
+def real_arange(*args, **kw):
+    """np.arange(start, stop, step) on symbolic REALS.  numpy sizes the result as ceil((stop - start)/step) in double
+    arithmetic; when that quotient is an integer k in exact arithmetic, rounding can make it k or k+1: both lengths are
+    explored (a fork), so code that relies on the length shows its extra element on one path.  Otherwise the exact ceiling
+    is used when it is a constant."""
+    if len(args) != 3:
+        raise HarnessError('symbolic np.arange needs start, stop, step')
+    start, stop, step = args
+    q = (SR.lift(stop) - SR.lift(start)) / SR.lift(step)
+    qc = None
+    t = z3.simplify(q.n * 1) if q.d is None else None
+    k = q.const()
+    if k is None:
+        # is the quotient a constant under the path condition?  try small integers
+        c = core.ctx()
+        for cand in range(0, 401):
+            if c.check(z3.Not((q == cand).t)) == z3.unsat:
+                k = cand
+                break
+    if k is None:
+        raise HarnessError('np.arange with a symbolic, non-constant number of elements')
+    from fractions import Fraction as _F
+    k = _F(k)
+    if k.denominator == 1:
+        n = int(k)
+        c = core.ctx()
+        extra = SB(c.fresh('arange_rounds_up', 'bool'))
+        if bool(extra):                       # free boolean: both outcomes are feasible -> two paths
+            n += 1
+    else:
+        n = int(-(-k.numerator // k.denominator))
+    out = _np.empty(max(n, 0), dtype=object)
+    for i in range(max(n, 0)):
+        out[i] = SR.lift(start) + SR.lift(step) * i
+    return out
+
+
 def arange(*args, **kw):
     if any(is_sym(a) for a in args) or state.arange_hook is not None:
         if state.arange_hook is None:
+            if all(isinstance(a, (SR, SI, int, float, _np.floating, _np.integer)) for a in args):
+                return real_arange(*args, **kw)
             raise HarnessError('np.arange with symbolic operands needs a hook')
         r = state.arange_hook(*args, **kw)
         if r is not NotImplemented:
